@@ -23,6 +23,7 @@ CONSTANTS
  IdReqs = {%(ids)s}
  Batch2 = {%(b2)s}
  Deviations = {"CheckpointOutsideLock"}
+ FailChoices = {{%(fail)s}}
  MaxHist = 100
  defaultInitValue = 0
 ACTION_CONSTRAINT GateGrain
@@ -32,17 +33,20 @@ CHECK_DEADLOCK FALSE
 
 # request mixes: (kinds, batch sizes)
 MIX2 = [("ts ts", "1 1"), ("ts ts", "1 2"), ("ts id", "1 1"), ("id ts", "2 1"), ("id id", "1 2")]
+# mixes in which one request's checkpoint write fails (storage fault injected by the harness store)
+FAIL2 = [("ts ts", "1 1", (1,)), ("ts ts", "2 1", (2,)), ("ts id", "1 2", (1,)), ("id ts", "1 1", (1,))]
+FAIL3 = [("ts ts ts", "1 1 1", (2,)), ("ts id ts", "1 1 2", (1,))]
 MIX3 = [("ts ts id", "1 2 1"), ("id ts id", "1 1 2"), ("ts ts ts", "1 1 1")]
 
 
-def gen(ctx, kinds, batches):
+def gen(ctx, kinds, batches, fail=()):
     kinds, batches = kinds.split(), [int(b) for b in batches.split()]
     n = len(kinds)
-    name = "Gen_%s_%s.cfg" % ("".join(k[0] for k in kinds), "".join(map(str, batches)))
+    name = "Gen_%s_%s_f%s.cfg" % ("".join(k[0] for k in kinds), "".join(map(str, batches)), "".join(map(str, fail)))
     open(os.path.join(ctx._specdir(), name), "w").write(GEN % {
         "reqs": ",".join(str(i + 1) for i in range(n)),
         "ids": ",".join(str(i + 1) for i in range(n) if kinds[i] == "id"),
-        "b2": ",".join(str(i + 1) for i in range(n) if batches[i] == 2)})
+        "b2": ",".join(str(i + 1) for i in range(n) if batches[i] == 2), "fail": ",".join(map(str, fail))})
     r = ctx.tlc_or_undecided("PDAlloc", name, timeout=600, workers=1)
     if not r.ok:
         raise Undecided("behaviour generation failed (%s):\n%s" % (name, r.out[-2000:]))
@@ -53,7 +57,7 @@ def gen(ctx, kinds, batches):
         if s in seen:
             continue
         seen.add(s)
-        out.append({"reqs": reqs, "steps": json.loads(s)})
+        out.append({"reqs": reqs, "steps": json.loads(s), "fail": list(fail)})
     return out, r
 
 
@@ -131,15 +135,25 @@ def run(ctx):
     scheds, genstates = [], 0
     rot = MIX3[(ctx.seed % len(MIX3)):] + MIX3[:(ctx.seed % len(MIX3))]
     mixes3 = rot[:1] if quick else rot[:2]
+    failmix3 = FAIL3[(ctx.seed % 2):][:1]
     ctx._specdir()
     from concurrent.futures import ThreadPoolExecutor
     with ThreadPoolExecutor(max_workers=max(1, min(4, ctx.workers // 2))) as ex:
-        futs = {m: ex.submit(gen, ctx, m[0], m[1]) for m in MIX2 + mixes3}
+        futs = {m: ex.submit(gen, ctx, *m) for m in MIX2 + mixes3 + FAIL2 + failmix3}
     for m in MIX2:
         ss, r = futs[m].result()
         genstates += r.distinct
         scheds += ss
-    n2 = len(scheds)
+    nfail = 0
+    for m in FAIL2 + failmix3:
+        ss, r = futs[m].result()
+        genstates += r.distinct
+        if len(m[0].split()) == 3:
+            ctx.rng.shuffle(ss)
+            ss = ss[:400 if quick else 4000]
+        nfail += len(ss)
+        scheds += ss
+    n2 = len(scheds) - nfail
     n3all = 0
     for m in mixes3:
         ss, r = futs[m].result()
@@ -153,7 +167,8 @@ def run(ctx):
     nfree = 40 if quick else 400
     for i in range(nfree):
         k = ctx.rng.randint(2, 6)
-        scheds.append({"reqs": [{"kind": ctx.rng.choice(["ts", "id"]), "n": ctx.rng.randint(1, 3)} for _ in range(k)], "steps": [], "free": True})
+        scheds.append({"reqs": [{"kind": ctx.rng.choice(["ts", "id"]), "n": ctx.rng.randint(1, 3)} for _ in range(k)], "steps": [], "free": True,
+                       "fail": [ctx.rng.randint(2, 4)] if i % 2 else []})
     # the real `nokv pd` binary: concurrent requests over gRPC, SIGKILL, restart (exercises cmd/nokv/pd.go itself)
     nbb = 6 if quick else 40
     for i in range(nbb):
@@ -167,7 +182,7 @@ def run(ctx):
     for i, s in enumerate(scheds):
         s["id"] = i
     ctx.log("M2: %d schedules (%d two-request prefixes = all, %d of %d three-request prefixes, %d free-running, %d recorded replays)"
-            % (len(scheds), n2, len(scheds) - n2 - nfree - nbb - len(replays), n3all, nfree, len(replays)) + "; %d black-box runs of the nokv binary" % nbb)
+            % (len(scheds), n2, len(scheds) - n2 - nfail - nfree - nbb - len(replays), n3all, nfree, len(replays)) + "; %d black-box runs of the nokv binary; %d prefixes with a failing checkpoint write" % (nbb, nfail))
     traces = run_driver(ctx, scheds)
     if len(traces) != len(scheds):
         raise Undecided("driver returned %d traces for %d schedules" % (len(traces), len(scheds)))
@@ -223,7 +238,7 @@ def run(ctx):
         "samples": [{"schedule": scheds[sample], "events": tl[order.index(sample)]}],
         "m1": {"cfg": "MC_PDAlloc.cfg", "generated": m1.generated, "distinct": m1.distinct, "depth": m1.depth, "coverage_zero": m1.coverage_zero,
                "deviant_design": {"cfg": "MC_PDAlloc_asis.cfg", "violates": asis.violated, "distinct_until_counterexample": asis.distinct}},
-        "generation_states": genstates, "blackbox_runs_of_nokv_pd": nbb, "two_request_prefixes": n2, "three_request_prefixes_available": n3all,
+        "generation_states": genstates, "blackbox_runs_of_nokv_pd": nbb, "prefixes_with_failing_checkpoint_write": nfail, "two_request_prefixes": n2, "three_request_prefixes_available": n3all,
         "events_validated": nevents, "failing_schedules": len(bysched),
         "steps_blocked_by_a_lock": blocked, "negative_control": "rejected as required",
         "checker_cmd": "tlc -config MC_PDAlloc.cfg PDAlloc.tla ; tlc -config PDAllocPropTrace.cfg PDAllocPropTrace.tla",
